@@ -67,6 +67,7 @@ def make_tracer(baton, me, granularity):
             while f is not None and depth < 8:
                 if f.f_code.co_name in baton.watch:
                     baton.watched.append(baton.events)
+                    baton.watched_inner[baton.events] = frame.f_code.co_name
                     break
                 f, depth = f.f_back, depth + 1
         tgt = baton.switch_at.get(baton.events)
@@ -85,6 +86,7 @@ def make_tracer(baton, me, granularity):
 
 
 WATCHED = []
+WATCHED_INNER = {}
 
 
 def memo_writers():
@@ -100,8 +102,10 @@ def run_schedule(fns, switch_at, granularity="call", watch=()):
     n = len(fns)
     baton = Baton(n)
     baton.watch = watch
-    global WATCHED
+    baton.watched_inner = {}
+    global WATCHED, WATCHED_INNER
     WATCHED = baton.watched
+    WATCHED_INNER = baton.watched_inner
     baton.switch_at = dict(switch_at)
     results = [None] * n
 
@@ -460,13 +464,15 @@ def lookup_walk_two_preemptions(ctx):
     client, tr = make_client("document")
     want = [call(client, "AAAA")(), call(client, "BB")()]
     run_schedule([call(client, "AAAA"), call(client, "BB")], {}, granularity="line", watch=("provider",))
-    first = list(WATCHED)
+    # the first thread is stopped while its walk is inside a callee of provider (comparing / following the links to
+    # other option sets); every such point is tried in the thorough tier, a spread of them in the quick one
+    first = [e for e in WATCHED if WATCHED_INNER.get(e) != "provider"]
     nsched = 0
-    for k1 in first[::max(1, len(first) // ctx.pick(10, 60))]:
+    for k1 in first[::max(1, len(first) // ctx.pick(14, 400))]:
         run_schedule([call(client, "AAAA"), call(client, "BB")], {k1: 1}, granularity="line", watch=("provider",))
         later = [e for e in WATCHED if e > k1]
         ends = [e + 1 for e in later if e + 1 not in later]            # right after a walk of the second thread
-        for k2 in ends[:ctx.pick(25, 200)]:
+        for k2 in ends[:ctx.pick(60, 400)]:
             res, nev, errs = run_schedule([call(client, "AAAA"), call(client, "BB")], {k1: 1, k2: 0}, granularity="line")
             nsched += 1
             meta = {"scenario": "lookup-walk/two-preemptions", "first": k1, "second": k2}
